@@ -289,6 +289,52 @@ def _dial(scheme: str, uri: Any) -> tuple[Any, Any] | str:
     return seen[0]
 
 
+def _isotp_sockopts(uri: Any) -> dict[str, Any] | str:
+    """Open an ISO-TP transport on a socket double and read back what it hands to the kernel: the options structure
+    (flags, frame_txtime, ext_address, txpad_content, rxpad_content, rx_ext_address) and the bound addresses."""
+    import struct
+    from unittest import mock
+
+    from gallia.transports import isotp as mod
+
+    rec: dict[str, Any] = {}
+
+    class FakeSock:
+        def __init__(self, *a: Any, **kw: Any) -> None:
+            pass
+
+        def setsockopt(self, level: int, opt: int, data: Any) -> None:
+            if opt == mod.CAN_ISOTP_OPTS:
+                rec["opts"] = struct.unpack("@IIBBBB", bytes(data)[:struct.calcsize("@IIBBBB")])
+
+        def bind(self, addr: Any) -> None:
+            rec["bind"] = addr
+
+        def setblocking(self, *_a: Any) -> None:
+            pass
+
+        def close(self) -> None:
+            pass
+
+    async def go() -> None:
+        with mock.patch.object(mod.s, "socket", FakeSock):
+            tr = await mod.ISOTPTransport.connect(uri)
+            rec["tr"] = tr
+
+    try:
+        import asyncio
+
+        asyncio.run(go())
+    except Exception as e:  # noqa: BLE001
+        return f"{type(e).__name__}: {e}"
+    if "opts" not in rec:
+        return "no ISO-TP options were set on the socket"
+    f, txtime, ext, txpad, rxpad, rxext = rec["opts"]
+    return {"flags": f, "frame_txtime": txtime, "ext_address": ext, "tx_padding": txpad, "rx_padding": rxpad, "rx_ext_address": rxext,
+            "flag_bits": {"ext_address": mod.CAN_ISOTP_EXTEND_ADDR, "rx_ext_address": mod.CAN_ISOTP_RX_EXT_ADDR,
+                          "tx_padding": mod.CAN_ISOTP_TX_PADDING, "rx_padding": mod.CAN_ISOTP_RX_PADDING}}
+
+
 def _hsfz_ack_time(uri: Any) -> float | str:
     """Connect an HSFZ transport to a gateway that never answers (in-memory streams, virtual time) and measure after how many
     seconds an unacknowledged write gives up: that is the acknowledgement timeout the transport really runs with."""
@@ -436,6 +482,19 @@ def _check(case: dict[str, Any]) -> list[tuple[str, str]]:
                 exp_port = port if port is not None else defport
                 if not _host_eq(dh, host) or dp != exp_port:
                     out.append((f"C20/dial/{scheme}/{shape}", f"{s}: dialled {(dh, dp)!r}, expected {(host, exp_port)!r}"))
+        if scheme == "isotp" and not out:
+            # what reaches the socket: each of the four optional bytes in its own slot, with its own flag
+            so = _isotp_sockopts(p)
+            if isinstance(so, str):
+                out.append(("C20/effective/isotp/connect", f"{s}: {so}"))
+            else:
+                for kk in ("ext_address", "rx_ext_address", "tx_padding", "rx_padding"):
+                    want = expect.get(kk)
+                    flag = bool(so["flags"] & so["flag_bits"][kk])
+                    if flag != (want is not None) or so[kk] != (want or 0):
+                        out.append((f"C20/effective/isotp/{kk}", f"{s}: the socket gets {kk}={so[kk]:#x} (flag {'set' if flag else 'clear'}), the URI says {want!r}"))
+                if "frame_txtime" in expect and so["frame_txtime"] != expect["frame_txtime"]:
+                    out.append(("C20/effective/isotp/frame_txtime", f"{s}: the socket gets {so['frame_txtime']}, the URI says {expect['frame_txtime']}"))
         if scheme == "hsfz" and not out and "ack_timeout" in expect:
             # the timeout is written in milliseconds: the transport has to run with exactly that
             t = _hsfz_ack_time(p)
